@@ -788,6 +788,11 @@ def c02(ctx):
                     tail = rng.choice([0, 1, 2])
                     cases.append(case(tc, ts, tail=tail))
                     meta.append((conv["name"], f[5] + " (stream cut after the field)", v, tail))
+    # ends of stream by an error that says "time-out" (once, and on every further read)
+    for conv in convs:
+        for tail in (3, 4):
+            cases.append(case(conv["client"], conv["server"], tail=tail))
+            meta.append((conv["name"], "timeout-tail", 0, tail))
     # two declared sizes at once (an enclosing and an enclosed one, both far beyond the bytes present): every pair of the
     # 32-bit length / count fields of the conversations that carry record batches
     for conv in convs[-2:]:
